@@ -35,6 +35,7 @@ PBv == Pod("ns2", "b-x1", "b", L1("app", "a"), <<>>)          \* same pod, relab
 PC  == Pod("ns2", "c", "", L1("app", "a"), <<CP("http", "UDP", 2)>>)
 PA1p == Pod("ns1", "a-x1", "a", L1("app", "a"), <<CP("http", "UDP", 2)>>)   \* same pod, same labels, its named port re-declared
 PD   == Pod("ns2", "a-x1", "a", L1("app", "a"), <<CP("http", "TCP", 2)>>)    \* a twin of PA1 (same owner name, labels, ports) in another namespace
+PA1n == Pod("ns1", "a-x1", "a", L1("app", "a"), <<CP("http", "TCP", 1)>>)   \* same pod, same labels, same port name and protocol: RENUMBERED
 PA3  == Pod("ns1", "a-x3", "a", L1("app", "a"), <<CP("web", "TCP", 2)>>)    \* a sibling of the same owner and labels whose template differs
 
 Blk(lo, hi) == [all |-> FALSE, lo |-> lo, hi |-> hi]
@@ -84,7 +85,7 @@ OpsFull ==
     [op |-> "InsNs", nso |-> Ns("ns2", L1("team", "x"))], [op |-> "InsNs", nso |-> Ns("ns2", NoL)],
     [op |-> "DelNs", name |-> "ns1"], [op |-> "DelNs", name |-> "ns2"],
     [op |-> "InsPod", pod |-> PA1], [op |-> "InsPod", pod |-> PA2], [op |-> "InsPod", pod |-> PB],
-    [op |-> "InsPod", pod |-> PBv], [op |-> "InsPod", pod |-> PC], [op |-> "InsPod", pod |-> PA1p], [op |-> "InsPod", pod |-> PA3],
+    [op |-> "InsPod", pod |-> PBv], [op |-> "InsPod", pod |-> PC], [op |-> "InsPod", pod |-> PA1p], [op |-> "InsPod", pod |-> PA1n], [op |-> "InsPod", pod |-> PA3],
     [op |-> "DelPod", ns |-> "ns1", name |-> "a-x3"], [op |-> "InsPod", pod |-> PD], [op |-> "DelPod", ns |-> "ns2", name |-> "a-x1"],
     [op |-> "DelPod", ns |-> "ns1", name |-> "a-x1"], [op |-> "DelPod", ns |-> "ns1", name |-> "a-x2"],
     [op |-> "DelPod", ns |-> "ns2", name |-> "b-x1"], [op |-> "DelPod", ns |-> "ns2", name |-> "c"],
@@ -103,7 +104,7 @@ OpsFull ==
 OpsSmall ==
   { [op |-> "InsNs", nso |-> Ns("ns1", L1("team", "y"))], [op |-> "DelNs", name |-> "ns1"],
     [op |-> "InsNs", nso |-> Ns("ns2", L1("team", "x"))], [op |-> "DelNs", name |-> "ns2"],
-    [op |-> "InsPod", pod |-> PBv], [op |-> "DelPod", ns |-> "ns2", name |-> "b-x1"], [op |-> "InsPod", pod |-> PA1p], [op |-> "InsPod", pod |-> PA3],
+    [op |-> "InsPod", pod |-> PBv], [op |-> "DelPod", ns |-> "ns2", name |-> "b-x1"], [op |-> "InsPod", pod |-> PA1p], [op |-> "InsPod", pod |-> PA1n], [op |-> "InsPod", pod |-> PA3],
     [op |-> "DelPod", ns |-> "ns1", name |-> "a-x1"], [op |-> "DelPod", ns |-> "ns2", name |-> "nosuch"],
     [op |-> "DelNP", ns |-> "ns1", name |-> "np3"], [op |-> "InsNP", np |-> NP1v], [op |-> "DelNP", ns |-> "ns1", name |-> "np1"],
     [op |-> "InsANP", anp |-> ANPB], [op |-> "InsANP", anp |-> ANPC], [op |-> "InsANP", anp |-> ANPAv], [op |-> "DelANP", name |-> "anp-a"],
@@ -112,7 +113,7 @@ OpsSmall ==
 (* a still smaller catalogue for one more step of exhaustive depth (thorough tier): one invalidating update per kind *)
 OpsTiny ==
   { [op |-> "InsNs", nso |-> Ns("ns1", L1("team", "y"))], [op |-> "DelNs", name |-> "ns1"],
-    [op |-> "InsPod", pod |-> PBv], [op |-> "DelPod", ns |-> "ns2", name |-> "b-x1"], [op |-> "InsPod", pod |-> PA1p], [op |-> "InsPod", pod |-> PA3],
+    [op |-> "InsPod", pod |-> PBv], [op |-> "DelPod", ns |-> "ns2", name |-> "b-x1"], [op |-> "InsPod", pod |-> PA1p], [op |-> "InsPod", pod |-> PA1n], [op |-> "InsPod", pod |-> PA3],
     [op |-> "DelNP", ns |-> "ns1", name |-> "np3"], [op |-> "InsNP", np |-> NP1v],
     [op |-> "InsANP", anp |-> ANPB], [op |-> "DelANP", name |-> "anp-a"],
     [op |-> "InsBANP", banp |-> BANPD], O("Sweep") }
@@ -128,7 +129,7 @@ RECURSIVE ApplyAll(_, _)
 ApplyAll(c, ops) == IF ops = <<>> THEN c
                     ELSE ApplyAll(IF Head(ops).op = "Sweep" THEN c ELSE Apply(c, Head(ops)).cur, Tail(ops))
 
-Init == /\ cur = ApplyAll(EmptyEngine(3, <<2>>, 2), Prefix)
+Init == /\ cur = ApplyAll(EmptyEngine(3, <<1, 2>>, 2), Prefix)
         /\ hist = Prefix
         /\ step = 0
 
